@@ -18,57 +18,57 @@ CHECKS = {
  "C05": dict(level=MC, engine="E3-seq + E2-sched", technique="unbounded BFS over operation sequences + preemption-bounded exhaustive schedule exploration at real lock acquisitions",
    text="Every reachable registry state under Add/Remove sequences (incl. duplicate, late and unknown removals) and every schedule of concurrent Add/Remove/Select programs up to the preemption bound keeps registry == routing table == published gossip counts.",
    note="3 (quick) / 5 (thorough) upstreams on 2 endpoints; preemption bound 2 / 3. Finding D1 repaired by a fix: commit.", ref="3 C05, 2.2, 2.3"),
- "C11": dict(level=MC, engine="E1-gmc", technique="explicit-state BFS over real gossip membership handlers with a table-driven failure detector and expiry-order sweeps; exhaustive event sequences on the real clusterState with the real accrual detector on a harness clock",
-   text="Every reachable state under leave (every subset of peers missing the notification), crash, suspicion, recovery, expiry sweeps with skew and gossip among survivors satisfies the lifecycle clauses (local node never flagged, left is sticky and only self-declared, flagged nodes expire and are announced, flagged nodes are not routable, no re-learning from peers that know the node left, a node heard from again is restored); with the real detector in the loop the unreachable flag equals silence > threshold x mean interval after every tick of every sequence.",
+ "C11": dict(level=MC, engine="E1-gmc", technique="explicit-state BFS over real gossip membership handlers with a table-driven failure detector and expiry-order sweeps; exhaustive event sequences on the real clusterState with the real accrual detector on a harness clock; preemption-bounded exhaustive schedule exploration of sweep against restoration (scheduler pass)",
+   text="Every reachable state under leave (every subset of peers missing the notification), crash, suspicion, recovery, expiry sweeps with skew and gossip among survivors satisfies the lifecycle clauses (local node never flagged, left is sticky and only self-declared, flagged nodes expire and are announced, flagged nodes are not routable, no re-learning from peers that know the node left, a node heard from again is restored); with the real detector in the loop the unreachable flag equals silence > threshold x mean interval after every tick of every sequence; a flagged peer is still probed by every gossip round; no schedule of sweep against restoration forgets a restored node (scheduler pass, programs G, H, I).",
    note="3 nodes (4 in thorough). Findings F2/F3 (re-learning after expiry) reproduced as KNOWN-FINDING and pruned.", ref="3 C11"),
  "C14": dict(level=MC, engine="E1-gmc", technique="explicit-state BFS; recording watcher folded and compared with the view in every state; plus preemption-bounded exhaustive schedule exploration of sweep/liveness against incoming datagrams (scheduler pass)",
    text="In every explored state the fold of all watcher notifications equals the node's visible state (nodes, live keys, left/unreachable flags), and no key/flag notification precedes OnJoin.",
-   note="Same scenario family as C02 plus a membership scenario. Scheduler pass: programs B, G, H; the routing table (fold of the notifications) must mirror the gossip view at quiescence.", ref="3 C14, 2.2"),
+   note="Same scenario family as C02 plus a membership scenario. Scheduler pass: programs B, G, H; the routing table (fold of the notifications) must mirror the gossip view at quiescence. Detector loop with the real accrual detector: the fold of reachable/unreachable/expired notifications equals the flag after every event.", ref="3 C14, 2.2"),
  "C15": dict(level=MC, engine="E3-seq + E2-sched", technique="unbounded BFS over Add/Remove/Select sequences + preemption-bounded schedule exploration with brute-force linearisability",
    text="Every Select result in every reachable balancer state is a currently registered upstream of exactly that endpoint (remote only when allowed and nothing is local); from every reachable state any window of n selections is a permutation of the n members; concurrent Select results are linearisable.",
    note="4-5 upstreams, 3 endpoints, one remote node. Preemption bound 2 / 3. Separate free-running -race pass (sampling) for unsynchronised cursor updates.", ref="3 C15"),
- "C17": dict(level=MC, engine="E3-seq", technique="unbounded BFS over upsert/delete/compact/leave/sync sequences on the real clusterState with rank-abstracted versions",
-   text="Every reachable state of a node's own key-value state (keys x values incl. empty, deletes, compaction, leave, writes after leave, observer syncs, late re-delivery of its own old state) agrees with a map+counter reference; compaction keeps live keys and drops tombstones; stale and fresh observers agree after synchronising.",
+ "C17": dict(level=MC, engine="E3-seq", technique="unbounded BFS over upsert/delete/compact/leave/sync sequences on the real clusterState with rank-abstracted versions; exhaustive bulk-size grid; preemption-bounded exhaustive schedule exploration of compaction against local writes (scheduler pass)",
+   text="Every reachable state of a node's own key-value state (keys x values incl. empty, deletes, compaction, leave, writes after leave, observer syncs, late re-delivery of its own old state) agrees with a map+counter reference; compaction keeps live keys and drops tombstones; stale and fresh observers agree after synchronising; owners with up to 300 (1000) keys synchronise completely through whole deltas and through datagram-sized deltas; no schedule of compaction against local writes loses a write (scheduler pass, program J).",
    note="Versions are compared only by order in the code, so states are identified up to order-isomorphism of versions (argument in DESIGN.md). Finding D2 repaired by a fix: commit.", ref="3 C17"),
  "C20": dict(level=MC, engine="E2-sched", technique="iterative preemption-bounded exhaustive schedule exploration (cooperative scheduler at real Mutex/RWMutex acquisitions) + separate free-running -race pass",
-   text="No schedule of the nine thread programs (A-H) on a real node core up to the preemption bound deadlocks, panics or exceeds the step horizon, and the registry, routing table and published gossip state agree at quiescence.",
+   text="No schedule of the eleven thread programs (A-J) on a real node core up to the preemption bound deadlocks, panics or exceeds the step horizon, and the registry, routing table and published gossip state agree at quiescence.",
    note="Scheduling points = lock acquisitions of manager, cluster.State, syncer, gossip state, failure detector; unsynchronised accesses are covered only by the separate free-running -race pass (sampling).", ref="3 C20, 2.2"),
 
  "C12": dict(level=MC, engine="E3-seq", technique="exhaustive enumeration of all arrival histories up to length window+k on the real detector against an exact rational reference",
    text="For every arrival history over the gap alphabet up to a length beyond the sample window, every window size and bootstrap interval in the grid, the real detector's suspicion level at five query offsets equals silence / mean(last W intervals) computed in exact rationals; zero at arrival, monotone in silence, above the threshold after 21 means of silence, never above it for steady peers.",
-   note="Gaps {1,2,5,5000} units (thorough {1,2,5,50,1000}), windows 1-4(5), bootstrap {2,7}; first contact by report or by query; every delta shape counts as a heartbeat; a real gossip.New node suspects a silent peer.", ref="3 C12"),
+   note="Gaps {1,2,5,5000} units (thorough {1,2,5,50,1000}), windows 1-4(5), bootstrap {2,7}; first contact by report or by query; every delta shape counts as a heartbeat; a real gossip.New node suspects a silent peer; lifecycle grid: a returning node id is measured from its own arrivals only.", ref="3 C12"),
  "C13": dict(level="exploration", engine="E3-seq + E1-gmc", technique="exhaustive sweep of every max packet size per content; every datagram emitted in explored gossip worlds; every byte string up to length L and every 1-edit neighbour of real datagrams/streams fed to the real handlers",
-   text="Every (content, max size) pair in the grid encodes within the limit to the maximal whole-entry prefix; every datagram emitted by real nodes in the explored worlds fits, decodes, is version-ordered and maximal; every hostile input in the enumerated set is applied or rejected without panic, hang or change to the node's own state.",
+   text="Every (content, max size) pair in the grid encodes within the limit to the maximal whole-entry prefix; every datagram emitted by real nodes in the explored worlds fits, decodes, is version-ordered and maximal; every hostile input in the enumerated set is applied or rejected without panic, hang or change to the node's own state; a stream peer that stalls at any point (also after a complete request, never reading the answer) is cut off at the stream timeout.",
    note="Exhaustive in the stated grid, not over all byte strings. Hostile inputs run in a worker process with an address-space limit and a watchdog. Finding D6 repaired by a fix: commit.", ref="3 C13"),
  "C19": dict(level="exploration", engine="E3-seq", technique="exhaustive grid of configurations x load distributions on the real Rebalance() with real yamux sessions, exact-arithmetic oracle",
-   text="For every threshold, shed rate, minimum, local connection count and multiset of other nodes (status x connections) in the grid, one Rebalance() call closes no more than max(1, ceil(rate x avg)) sessions, never more than are open, and only when other nodes are known, the minimum is met and the excess over the whole-connection average reaches the threshold.",
+   text="For every threshold, shed rate, minimum, local connection count and multiset of other nodes (status x connections) in the grid, one Rebalance() call closes no more than max(1, ceil(rate x avg)) sessions, never more than are open, and only when other nodes are known, the minimum is met and the excess over the whole-connection average reaches the threshold; configurations outside the valid range (negative threshold, shed rate outside [0,1]) are either refused by Validate or held to the same rules.",
    note="Dyadic parameters so float and rational arithmetic agree at boundaries. The 'only when enabled' clause (threshold 0 starts no rebalance task) is in server.go and is covered by the node-level check once built.", ref="3 C19"),
 }
 
 CHECKS.update({
  "C01": dict(level="exploration", engine="E4-sys", technique="exhaustive enumeration of placements x routing views x entry nodes x addressings on real proxy servers; Gray-code walk over every placement on a real gossiping cluster",
-   text="On three real proxy servers with every placement of upstreams of two endpoints, five routing-view policies, every entry node and 21 addressings (incl. an endpoint differing only in case, and the endpoint header declared hop-by-hop by the client) no request is ever answered by an upstream of another endpoint; on a real 3-node cluster with real client listeners, after settling, every entry node serves the endpoint iff an upstream exists (else 502), for all 64 placements, also with requests in flight during each change; after a listener stops accepting with Close() (connection kept) requests entering at every node end up at the listener that is still there.",
+   text="On three real proxy servers with every placement of upstreams of two endpoints, five routing-view policies, every entry node and 21 addressings (incl. an endpoint differing only in case, and the endpoint header declared hop-by-hop by the client) no request is ever answered by an upstream of another endpoint; on a real 3-node cluster with real client listeners, after settling, every entry node serves the endpoint iff an upstream exists (else 502), for all 64 placements, also with requests in flight during each change; after a listener stops accepting with Close() (connection kept) requests entering at every node end up at the listener that is still there; a TLS cluster serves every entry x addressing; client.Dialer and the header route reach exactly the listener of endpoint ids that need URL escaping.",
    note="Schedules inside net/http, gorilla and yamux are free-running; lock-level interleavings of Select/AddConn/RemoveConn are enumerated by C15/C20. Finding D7 repaired by a fix: commit.", ref="3 C01, 2.4"),
  "C06": dict(level="fault_enumeration", engine="E4-sys", technique="exhaustive enumeration of all belief matrices x placements x entry x route x forwarded flag on real proxy servers, hop count from accepted connections; plus preemption-bounded exhaustive schedule exploration of Select against connect/disconnect (scheduler pass)",
-   text="For all 2^6 per-node belief matrices, all 3^3 placements (none / healthy / go-away upstream per node), every entry node, HTTP and TCP routes, x-piko-forward sent by the client absent/true/false, with and without the client declaring that header hop-by-hop (46656 cases; thorough also 2 and 4 nodes) a request crosses at most one inter-node hop, a local upstream is always used, an already forwarded request is never forwarded again, and the outcome is 200 from an upstream of the endpoint or 502.",
+   text="For all 2^6 per-node belief matrices, all 3^3 placements (none / healthy / go-away upstream per node), every entry node, HTTP and TCP routes, x-piko-forward sent by the client absent/true/false, with and without the client declaring that header hop-by-hop, and under 3 access-log configurations (77760 cases; thorough also 2 and 4 nodes) a request crosses at most one inter-node hop, a local upstream is always used, an already forwarded request is never forwarded again, and the outcome is 200 from an upstream of the endpoint or 502.",
    note="Hops are counted as connections accepted by the proxies (no keep-alive on either side). Scheduler pass: programs A and F, every schedule up to 2 (3) preemptions: Select never returns the local node as forwarding target and never forwards an already-forwarded request. Finding D7 repaired by a fix: commit.", ref="3 C06, 2.2"),
  "C07": dict(level="exploration", engine="E3-seq + E4-sys", technique="exhaustive grid of message compositions x empty messages x read-buffer patterns x transport fragmentation on the real WebSocket adapter; enumerated tunnel paths x sizes x closer on real nodes",
-   text="Every composition of an n-byte payload into WebSocket messages with up to two empty messages, 8 read-buffer patterns and 4 transport read limits is delivered exactly once and in order by the real adapter (never a (0,nil) read, close frame => error); 5 real tunnel paths x 4 sizes x empty write x closer deliver bytes intact and propagate close, releasing the upstream stream; the same paths on a TLS cluster; one long-lived tunnel per path (plaintext and TLS cluster) used for 6.5s never sees an end-of-stream neither side caused.",
+   text="Every composition of an n-byte payload into WebSocket messages with up to two empty messages, 8 read-buffer patterns and 4 transport read limits is delivered exactly once and in order by the real adapter (never a (0,nil) read, close frame => error); 5 real tunnel paths x 4 sizes x empty write x closer deliver bytes intact and propagate close, releasing the upstream stream; the same paths on a TLS cluster; one long-lived tunnel per path (plaintext and TLS cluster) used for 6.5s never sees an end-of-stream neither side caused; single writes of 300KiB; a send-only local service behind the agent TCP proxy / client forwarder is released when the client closes.",
    note="Adapter half is deterministic and exhaustive in its grid; tunnel half is free-running.", ref="3 C07"),
  "C08": dict(level="exploration", engine="E4-sys", technique="enumerated request/response grid (pairwise-complete quick, full cross product thorough) on a real 2-node cluster; enumerated gateway failure matrix",
-   text="Across method x escaped path x query x header set x body size x response shape x {local, forwarded, agent HTTP server} (9 methods incl. PROPFIND/PURGE) the upstream sees exactly the client's method, request-target, Host, headers and body and the client sees exactly the upstream's status, headers, body and trailer; undeterminable endpoint => 400, no/refusing/early-closing upstream => 502, slow upstream or silent node => 504, a connected upstream whose connection stalled and recovered is reached again, WebSocket upgrades (any spelling) outlive the timeout; same failure matrix for the agent reverse proxy.",
+   text="Across method x escaped path x query x header set x body size x response shape x {local, forwarded, agent HTTP server} (9 methods incl. PROPFIND/PURGE) the upstream sees exactly the client's method, request-target, Host, headers and body and the client sees exactly the upstream's status, headers, body and trailer; undeterminable endpoint => 400, no/refusing/early-closing upstream => 502, slow upstream or silent node => 504, a connected upstream whose connection stalled and recovered is reached again, with proxy authentication enabled the client's own Authorization header reaches the upstream (local and forwarded), forwarding works on a TLS cluster, WebSocket upgrades (any spelling) outlive the timeout; same failure matrix for the agent reverse proxy.",
    note="Hop-by-hop headers (Connection, X-Forwarded-For, x-piko-forward, Accept-Encoding, User-Agent, Content-Length/Transfer-Encoding) are allowed to differ. Finding D3 repaired by a fix: commit.", ref="3 C08"),
  "C09": dict(level="exploration", engine="E4-sys", technique="exhaustive cross product of key configurations x token defects x presentations x every route registered on the live gin engines of a real server",
-   text="For each key configuration (HMAC, RSA, ECDSA, JWKS, combinations, with/without audience and issuer) a real server with that auth on all three ports refuses (401, sentinel upstream untouched) every token in the cross product of algorithm x signing key x tampering x exp x nbf x aud x iss x header presentation that an independent oracle says must be refused, on every registered route of every port (incl. ?forward=<node> on the admin port); with independent per-port keys each port honours its own key only.",
+   text="For each key configuration (HMAC, RSA, ECDSA, JWKS, combinations, with/without audience and issuer) a real server with that auth on all three ports refuses (401, sentinel upstream untouched) every token in the cross product of algorithm x signing key x tampering x exp x nbf x aud x iss x header presentation that an independent oracle says must be refused, on every registered route of every port (incl. ?forward=<node> on the admin port); with independent per-port keys each port honours its own key only; a client-set x-piko-forward marker buys nothing; a token accepted while fresh is refused when presented again after its expiry.",
    note="Routes come from gin's Routes() of the running servers; trailing-slash redirects are outside the alphabet.", ref="3 C09"),
  "C10": dict(level="exploration", engine="E4-sys", technique="exhaustive grid of endpoint-claim sets x target namings x ports and tenant tables x signing keys x tenant headers on a real server",
-   text="7 endpoint-claim sets x 13 ways of naming the target x 2 token headers (and with a client-set x-piko-forward marker) on the proxy port and x 5 endpoints on the listen port: a request is served iff the endpoint that actually serves it is permitted, and it is the endpoint named by the precedence rule; 3 tenant tables x default key on/off x 3 signers x 4 tenant headers: accepted iff the named tenant exists and its key signed the token (default key only without tenants).",
+   text="7 endpoint-claim sets x 13 ways of naming the target x 2 token headers (and with a client-set x-piko-forward marker) on the proxy port and x 5 endpoints on the listen port: a request is served iff the endpoint that actually serves it is permitted, and it is the endpoint named by the precedence rule; 3 tenant tables x default key on/off x 3 signers x 4 tenant headers: accepted iff the named tenant exists and its key signed the token (default key only without tenants), also for tables mixing HMAC, RSA and ECDSA keys and when a token is replayed under another header after it was accepted; blank or padded ids in the claim name no endpoint.",
    note="", ref="3 C10"),
  "C16": dict(level="fault_enumeration", engine="E4-sys", technique="enumeration of every assignment and order of connection endings (6 kinds) over 2-3 upstream connections on a real server, with/without a request in flight; enumerated client-listener stop x outage-window cases behind a gate; every connect order of mixed token lifetimes",
-   text="After every ending (client close, go-away then close, go-away + proxied request then close, abrupt TCP close, server-side shed, token expiry, server shutdown) in every order, registry == routing table == published gossip entries == still-connected set and the open-session count matches; expiring tokens are closed at, not before, expiry unless disconnect-on-expiry is disabled; a client listener stopped while connected, while reconnecting or after a reconnect leaves nothing registered; tokens without exp are not closed when other tokens expire.",
+   text="After every ending (client close, go-away then close, go-away + proxied request then close, abrupt TCP close, server-side shed, token expiry, server shutdown) in every order, registry == routing table == published gossip entries == still-connected set and the open-session count matches; expiring tokens are closed at, not before, expiry unless disconnect-on-expiry is disabled; a client listener stopped while connected, while reconnecting or after a reconnect leaves nothing registered; tokens without exp are not closed when other tokens expire; a connection whose network goes dark without FIN/RST is noticed and deregistered.",
    note="Liveness waits poll up to 15s and a miss is re-run twice before it is reported; quick tier thins the expiry combinations.", ref="3 C16"),
- "C18": dict(level="fault_enumeration", engine="E4-sys", technique="enumeration of lost node x phase x SIGTERM/SIGKILL on a 3-node cluster whose lost node is a real piko server process built from the current tree",
-   text="For the lost node being the join seed or a later joiner, at each phase (idle, upstreams connected, requests in flight, second signal mid-shutdown), by SIGTERM or SIGKILL: the process exits within the grace period, survivors stop listing it as active (left after a graceful stop), no request is answered by a wrong endpoint, listeners (opened as the agent opens them, with upstream authentication) reconnect through the load balancer and every survivor serves every endpoint again; a node that left no longer advertises.",
+ "C18": dict(level="fault_enumeration", engine="E4-sys", technique="enumeration of lost node x phase x SIGTERM/SIGKILL x {orderly close, TCP reset} on a 3-node cluster whose lost node is a real piko server process built from the current tree; exhaustive enumeration of unreachable-peer subsets for the real Gossip.Leave on 3-5 in-memory nodes (attempt order inside Leave sampled 8x, stated)",
+   text="For the lost node being the join seed or a later joiner, at each phase (idle, upstreams connected, requests in flight, second signal mid-shutdown), by SIGTERM or SIGKILL: the process exits within the grace period, survivors stop listing it as active (left after a graceful stop), no request is answered by a wrong endpoint, listeners (opened as the agent opens them, with upstream authentication) reconnect through the load balancer and every survivor serves every endpoint again; a node that left no longer advertises; connection loss seen as orderly close or as TCP reset; the real Gossip.Leave announces the departure for every subset of just-died peers (order of attempts sampled 8x).",
    note="Kill points are phase boundaries. Finding D4 repaired by a fix: commit.", ref="3 C18"),
 })
 
@@ -101,8 +101,8 @@ def main():
             "add_only": True,
         },
         "engines": [
-            {"name": "E1-gmc", "path": "harness/internal/gw + harness/internal/mc", "serves_properties": ["C02", "C03", "C04", "C11", "C13", "C14"], "kind_free_text": "explicit-state model checker whose transition function is the real gossip code (replay-based successors, canonical-state dedup)"},
-            {"name": "E2-sched", "path": "shims/verifshim/vsync + harness/internal/sched", "serves_properties": ["C05", "C06", "C14", "C15", "C20"], "kind_free_text": "cooperative scheduler + iterative preemption-bounded DFS over real lock acquisitions"},
+            {"name": "E1-gmc", "path": "harness/internal/gw + harness/internal/mc", "serves_properties": ["C02", "C03", "C04", "C11", "C13", "C14", "C18"], "kind_free_text": "explicit-state model checker whose transition function is the real gossip code (replay-based successors, canonical-state dedup)"},
+            {"name": "E2-sched", "path": "shims/verifshim/vsync + harness/internal/sched", "serves_properties": ["C05", "C06", "C11", "C14", "C15", "C17", "C20"], "kind_free_text": "cooperative scheduler + iterative preemption-bounded DFS over real lock acquisitions"},
             {"name": "E3-seq", "path": "harness/cmd/vcheck/seq_*.go", "serves_properties": ["C05", "C07", "C11", "C12", "C13", "C15", "C17", "C19"], "kind_free_text": "exhaustive operation-sequence / input-grid enumeration against reference models"},
             {"name": "E4-sys", "path": "harness/internal/e4 + harness/cmd/vcheck/sys_*.go", "serves_properties": ["C01", "C06", "C07", "C08", "C09", "C10", "C16", "C18", "C19"], "kind_free_text": "enumerated configurations / fault points on real piko nodes (component clusters, in-process servers, a subprocess server for kill) on loopback"},
         ],
